@@ -98,6 +98,25 @@ def rule_bindorder(crate):
     by_kind = {}
     for (si, kind, x) in events:
         by_kind.setdefault(kind, []).append((si, x))
+    # the parameters may be put into the scope in one step: `self.locals.push(<vec built from parameters>)`
+    if "param-bind" not in by_kind and "scope-open" in by_kind:
+        param_ids = {q["id"] for q in walk(arm["pat"]) if q.get("k") == "Binding" and q.get("name") == "parameters"}
+        from sym import let_inits
+
+        inits = let_inits(cs)
+
+        def from_params(e, depth=0):
+            for y in walk(e):
+                if y.get("k") == "Path" and y["res"].get("r") == "local":
+                    if y["res"]["id"] in param_ids:
+                        return True
+                    if y["res"]["id"] in inits and depth < 3 and from_params(inits[y["res"]["id"]], depth + 1):
+                        return True
+            return False
+
+        for (si, x) in by_kind["scope-open"]:
+            if x["args"] and from_params(x["args"][0]):
+                by_kind.setdefault("param-bind", []).append((si + 0.5, x))
     missing = [k for k in order if k not in by_kind]
     if missing:
         out.error("anchor missing in the DefineFunction arm of compile_statement: no %s event" % ", ".join(missing))
